@@ -1636,6 +1636,9 @@ def o16(ctx, rep):
                 through = [x for x in succs if x == b or body.dominates(x, b)]
                 if not through or len(through) == len(succs):
                     continue  # b does not depend on this branch
+                heads = [h for (h, blk, lat) in loops if b in blk]
+                if all((x in set(body.ok_removed())) or (heads and not (set(heads) & body.reachable([x]))) for x in succs if x not in through):
+                    continue  # a validity check whose other edge abandons the redo (error exit)
                 # the dispatch on the entry kind and `?` checks are not conditions on the map
                 is_plumbing = False
                 for s_ in body.stmts(sb):
